@@ -12,7 +12,7 @@ from __future__ import annotations
 
 import ast
 
-from .minipy import Ctx, block
+from .minipy import Ctx, alias_check, block
 from .pyast import Unrecognised, clean, cstr, find_def, parse, unparse
 
 INPUTS = ["negative_prefix", "negative_option", "_conflict_prefix", "option_strings"]
@@ -63,6 +63,7 @@ def emit(repo: str) -> str:
         if "negative_option_strings" in rest or "negative_prefix" in rest or "negative_option" in rest:
             raise Unrecognised(f"statement after the dumped range touches the negative options: {txt[:80]}")
     c = Ctx(attr_targets=ATTR_TARGETS)
+    alias_check(body[start:end], c)
     ss = block(body[start:end], c)
     blk = "[" + ";\n   ".join(ss) + "]"
     locs = [a for a in c.assigned if a not in INPUTS]
